@@ -1,0 +1,42 @@
+//go:build verif
+
+// Package verifhook re-exports internal packages for the external
+// verification harness. It only exists under the "verif" build tag.
+package verifhook
+
+import (
+	"time"
+
+	"github.com/go-git/go-git/v6/internal/revision"
+	"github.com/go-git/go-git/v6/internal/sharedfile"
+	ivh "github.com/go-git/go-git/v6/internal/verifhook"
+	"github.com/go-git/go-git/v6/x/fdpool"
+)
+
+// SharedFile re-exports sharedfile.SharedFile.
+type SharedFile = sharedfile.SharedFile
+
+// ReadAtCloser re-exports sharedfile.ReadAtCloser.
+type ReadAtCloser = sharedfile.ReadAtCloser
+
+// ErrSharedFileClosed re-exports sharedfile.ErrClosed.
+var ErrSharedFileClosed = sharedfile.ErrClosed
+
+// NewSharedFile re-exports sharedfile.New.
+func NewSharedFile(open func() (ReadAtCloser, error), grace time.Duration) *SharedFile {
+	return sharedfile.New(open, grace)
+}
+
+// NewSharedFileWithPool re-exports sharedfile.NewWithPool.
+func NewSharedFileWithPool(open func() (ReadAtCloser, error), grace time.Duration, pool *fdpool.Pool) *SharedFile {
+	return sharedfile.NewWithPool(open, grace, pool)
+}
+
+// SetYield installs the callback run at every internal Yield point.
+func SetYield(f func(point string)) { ivh.Set(f) }
+
+// RevisionParser re-exports revision.Parser.
+type RevisionParser = revision.Parser
+
+// NewRevisionParser re-exports revision.NewParserFromString.
+func NewRevisionParser(s string) *RevisionParser { return revision.NewParserFromString(s) }
